@@ -52,8 +52,9 @@ claim('C03',
 claim('C04',
       'Coq theorems: the table stage of the model can fail only with a genuine conflict of the automaton it was given, and on success the '
       'table holds exactly the demands of the machine\'s items (table_spec); every grammar the model of generate accepts is unambiguous and '
-      'its emitted parser is a correct recogniser (all grammars, no validator). Exactness (Ok iff the LALR(1) automaton defined from canonical '
-      'LR(1) item sets is conflict-free) is not proved — the lookahead sets are proved closed and justified, not least; it is decided per '
+      'its emitted parser is a correct recogniser (all grammars, no validator); the lookahead sets of the machine are the least solution of the '
+      'LALR(1) propagation rules over its own LR(0) automaton (Build/DerProofs.v). Not proved: that this characterisation coincides with the '
+      'textbook definition (Ok iff the automaton obtained by merging canonical LR(1) item sets by core is conflict-free); it is decided per '
       'grammar by comparing the crate and the model with a brute-force canonical-LR(1)-then-merge reference on generated and textbook grammars.',
       COMMON_NOTE, 'Coq proof (builder-table invariant, table_spec, generator invariants) + differential against brute-force LALR(1) reference', 'DESIGN.md §5 C04')
 claim('C05',
@@ -137,7 +138,9 @@ claim('C16',
 claim('C17',
       'Coq theorems: for validated tables every non-error cell is demanded by an item and every demand/transition of an item is in the table; '
       'the same for the tables of every grammar the model of generate accepts, with the machine\'s own item sets as annotation (closed states, '
-      'distinct cores, deterministic complete transitions, targets with the core of the advanced kernel\'s closure). Exactness w.r.t. the canonical LALR(1) lookahead sets is decided per grammar: tables read from the real text = model = brute-force reference.',
+      'distinct cores, deterministic complete transitions, targets with the core of the advanced kernel\'s closure), and the lookahead sets are '
+      'LEAST: an item is in a state exactly when it is derivable from the start item by the closure rule and by following transitions '
+      '(Build/DerProofs.v, LR/Least.v). Equivalence of this least-fixpoint characterisation with the textbook merge of canonical LR(1) states, i.e. exactness w.r.t. the canonical LALR(1) lookahead sets is decided per grammar: tables read from the real text = model = brute-force reference.',
       COMMON_NOTE, 'Coq proof (generator invariants) + Coq validator on real tables + differential against brute-force LALR(1) reference', 'DESIGN.md §5 C17')
 claim('C18',
       'Coq theorems over the executable model of Oset (insert/contains/from_iter/extend as sorted-list functions): for every '
